@@ -222,7 +222,9 @@ class IMAPConnection:
                 try:
                     resp_dec = b64decode(resp_bytes)
                 except binascii.Error as exc:
-                    raise AuthenticationError() from exc
+                    raise AuthenticationError(
+                        'Invalid base64 in authentication response.') \
+                        from exc
                 else:
                     responses.append(ChallengeResponse(chal.data, resp_dec))
             else:
@@ -389,7 +391,8 @@ class IMAPConnection:
                         break
                 except AuthenticationError as exc:
                     msg = bytes(str(exc), 'utf-8', 'surrogateescape')
-                    resp = ResponseBad(cmd.tag, msg)
+                    resp = ResponseBad(cmd.tag,
+                                       msg or b'Authentication failed.')
                     await self.write_response(resp)
                 except TimeoutError:
                     resp = ResponseNo(cmd.tag, b'Operation timed out.',
